@@ -32,6 +32,17 @@ Lemma c05_traces_fresh odfi es s :
   map e_trace (retrace odfi s es) = map (fun i => odfi * P7 + (s + Z.of_nat i) mod P7) (seq 0 (length es)).
 Proof. apply retrace_all_absent. Qed.
 
+Lemma c05_traces_ascending b b' : 0 <= b_odfi b ->
+  (b_off b <> None -> wf_entries T (b_entries b) = true) ->
+  all_absent (b_odfi b) (b_entries b) = true -> Z.of_nat (length (b_entries b)) < P7 - 1 ->
+  build T b = Ret true b' -> asc 0 (map e_trace (b_entries b')).
+Proof. apply build_ascending, offset_table_good. Qed.
+
+Lemma c05_file_tabulates f f' : file_create f = Ret true f' ->
+  f_ctl f' = file_control (f_batches f') /\ map b_entries (f_batches f') = map b_entries (f_batches f) /\
+  fc_batches (f_ctl f') = Z.of_nat (length (f_batches f)).
+Proof. apply file_create_tabulates. Qed.
+
 Lemma c05_idempotent b b' : odfi_ok (b_odfi b) -> wf_entries T (b_entries b) = true ->
   build T b = Ret true b' -> b_entries b' <> [] -> build T b' = Ret true b'.
 Proof. apply build_idem, offset_table_good. Qed.
@@ -90,6 +101,10 @@ Definition ex_batch : batch :=
     [ex_entry 22 100 false 0; ex_entry 27 40 false 0; ex_entry 22 5 true 0; ex_entry 32 250 false 121042880000009]
     ex_ctl0 (Some ex_off).
 
+Definition three_entries_ex : batch :=
+  mkbatch true 12104288 200 1
+    [ex_entry 22 100 false 0; ex_entry 22 200 false 0; ex_entry 27 50 false 0] ex_ctl0 (Some ex_off).
+
 Lemma ex_batch_hyps :
   b_hdr_ok ex_batch = true /\ o_routing_ok ex_off = true /\ o_kind ex_off <> BadKind /\ odfi_ok (b_odfi ex_batch) /\
   wf_entries T (b_entries ex_batch) = true /\ existsb nonoff (b_entries ex_batch) = true.
@@ -105,6 +120,16 @@ Lemma ex_batch_build :
         mkentry 27 350 true 121042880000010 0 12104288; mkentry 22 40 true 121042880000011 0 12104288]
        (mkctl 200 1 5 (Z.rem (3 * 23138010 + 2 * 12104288) P10) 390 390) (Some ex_off))
   /\ iter_build T 4 ex_batch = build T ex_batch.
+Proof. vm_compute. split; reflexivity. Qed.
+
+(* ascending traces: three entries without traces and an offset *)
+Lemma ex_ascending :
+  all_absent (b_odfi three_entries_ex) (b_entries three_entries_ex) = true /\
+  match build T three_entries_ex with
+  | Ret true b' => map e_trace (b_entries b') =
+      [121042880000001; 121042880000002; 121042880000003; 121042880000004; 121042880000005]
+  | _ => False
+  end.
 Proof. vm_compute. split; reflexivity. Qed.
 
 (* a history: create, add an entry, create, file create twice *)
